@@ -42,7 +42,7 @@ def mkWorld (hdr syms trees : Sexp) : World :=
 
 def parseEdit (s : Sexp) : Option Edit :=
   match s.items with
-  | [.atom "rename", a, n] => do pure (.rename (← a.nat?) (← n.nat?))
+  | [.atom "rename", p, a, n] => do pure (.rename (← p.nat?) (← a.nat?) (← n.nat?))
   | [.atom "setdeps", a, ds] => do pure (.setDeps (← a.nat?) ds.natList)
   | [.atom "addsym", p, n, ds] => do pure (.addSym (← p.nat?) (← n.nat?) ds.natList)
   | [.atom "removesym", p, a] => do pure (.removeSym (← p.nat?) (← a.nat?))
